@@ -265,6 +265,25 @@ def extract_drops(crate, path, src):
 
 
 # ---------------------------------------------------------------------------------------------
+# shared mutable state (C15): anything through which one call could influence another
+MUT_RE = re.compile(r"\bCell\s*<|\bRefCell\b|\bUnsafeCell\b|\bAtomic[A-Z]\w*|\bstatic\s+mut\b|\bMutex\b|\bRwLock\b|\bOnceCell\b|"
+                    r"\bOnceLock\b|\bLazyLock\b|thread_local!|lazy_static!|cpufeatures::new!|\bas\s+\*mut\b|\btransmute\b|\bcast_mut\b")
+
+
+def extract_mut(crate, path, src):
+    s = src
+    k = s.find("#[cfg(test)]")
+    if k >= 0:
+        s = s[:k]
+    res = []
+    for m in MUT_RE.finditer(s):
+        tok = re.sub(r"\s+", " ", m.group(0))
+        # `&mut self` is only shared state for cipher methods; Drop::drop and bcrypt setters take it legitimately
+        res.append((crate, os.path.relpath(path, REPO), tok))
+    return res
+
+
+# ---------------------------------------------------------------------------------------------
 # G1 tables
 INT_RE = re.compile(r"(?<![\w.])(0x[0-9a-fA-F_]+|0b[01_]+|0o[0-7_]+|[0-9][0-9_]*)(?:_?(u8|u16|u32|u64|u128|usize|i32|i64))?(?![\w.])")
 
@@ -410,7 +429,7 @@ def write_if_changed(path, content):
 
 
 def main():
-    fmts, guards, structs, drops, tables, sites, scalars, keyinits = [], [], [], [], [], [], [], []
+    fmts, guards, structs, drops, tables, sites, scalars, keyinits, muts = [], [], [], [], [], [], [], [], []
     for crate in CRATES:
         for path in rs_files(crate):
             try:
@@ -429,6 +448,7 @@ def main():
             structs += extract_structs(crate, path, src)
             drops += extract_drops(crate, path, src)
             keyinits += extract_keyinits(crate, path, src)
+            muts += extract_mut(crate, path, src)
             tables += extract_tables(crate, path, src)
             tables += extract_alias_tables(crate, path, src)
             scalars += extract_scalars(crate, path, src)
@@ -473,6 +493,14 @@ def main():
         f"whole := {b(d['whole'])}, delegates := {sl(d['delegates'])}, cfgZeroize := {b(d['cfg_zeroize'])} }}"
         for d in drops))
     L.append("]")
+    L.append("")
+    L.append("/-- occurrences of shared-mutable-state constructs outside test modules: (crate, file, token), deduplicated -/")
+    um = []
+    for x in muts:
+        if x not in um:
+            um.append(x)
+    L.append("def sharedMut : List (String × String × String) := [" + ", ".join(
+        f"({lean_str(a)}, {lean_str(b_)}, {lean_str(c)})" for a, b_, c in um) + "]")
     L.append("")
     L.append("/-- every `impl KeyInit for T`: (crate, file, base type name) -/")
     L.append("def keyInits : List (String × String × String) := [" + ", ".join(
